@@ -96,7 +96,11 @@ prop("C17", True,
      "Strong on well-formedness: (R1) for each of the five supported types and all 3^depth member-count combinations (first/middle/last member all occur) the emitted token string is accepted by the OGC BNF, has the member counts of the geometry at every level and lists every coordinate exactly once in storage order, X before Y; (R2) every float is formatted with precision -1, 64 bits, format in eEfgG (shortest round trip); (R3) exactly the five types are encoded and everything else reaches the error return.",
      "Not decided: strconv's contract (trusted). Bounds: member counts {1,2,3} per level realise every index predicate the appenders may test (i==0, i==len-1 and their negations); predicates on other positions would be UNDECIDED.",
      None)
-prop("C18", False, "", "", "", NOT_YET)
+prop("C18", True,
+     "lockset analysis (path-sensitive must-hold locksets with defer, field→mutex table derived from the struct), lock-order graph over the package call graph, pairing rules for dependency registration, fixpoint-completeness rule from the KeepFuncs' read set, sibling summary comparison",
+     "For all schedules of the worker pool (the quantifier tests cannot reach): (R1) every access to the six guarded maps in code reachable from the errgroup workers (incl. the KeepFunc closures) holds the map's mutex in the right mode, the another-pass flag is written only under its mutex and untouched by the spawner between Go and Wait; (R2) every acquire is released on all exits and the acquisition-order graph incl. callee acquisitions is acyclic; (R3) all 8 dependency registrations set the another-pass result and no caller discards it; (R4) every concurrent store into a set that a KeepFunc consults must request another pass (fixpoint completeness); (R5) process* and *NoCopy twins have the same guard→effect summary.",
+     "Not decided: minimality of the result, equality with a sequential model, termination of the pass loop. Three open known findings under R4 (KeepBounds reads Nodes/Ways/Relations while workers fill them; schedule replayed in demos/osm_whitebox).",
+     None)
 prop("C19", True,
      "type-level conformance check (go/types.Implements of the AStar graph argument against gonum's path.Weighted), max-accumulator shape rule on every store of the heuristic's divisor, table/loop rules for weights and totals, pairing rule for adjacency stores",
      "(R1) the static type of the graph passed to gonum path.AStar implements path.Weighted — the optional interface AStar asserts before silently falling back to unit costs (near-misses are reported with both signatures); (R2) the field the time heuristic divides by is a running maximum of link speeds at every store (admissibility direction); (R3) Weight returns the time/length field per option with no numeric default, time = length/speed, the route loop covers every consecutive node pair and sums the appended link's own length and time; (R4) adjacency stores are mirrored.",
